@@ -4,7 +4,10 @@ from .. import core, sysgen, reader
 
 MODULES = ['DsdVerif.Props.C14']
 GEN_FILES = ['IupacTables', 'Grammars']
-THEOREMS = []
+THEOREM_NAMES = ['ignore_skips', 'ignored_reaction_survives', 'reaction_missing_member', 'complement_sequence',
+                 'complement_sequence_strong', 'non_iupac_rejected', 'failed_read_restores', 'sl_domain_length_mismatch',
+                 'dl_domain_lengths']
+THEOREMS = ['Dsd.C14.' + t for t in THEOREM_NAMES]
 ASSUMPTIONS = [
     'consistent systems are generated from an abstract model (domains with lengths or IUPAC sequences, strands / composite domains, '
     'complexes in kernel and strand notation, concentrations, macrostates named after a member, detailed and condensed reactions, '
